@@ -75,6 +75,26 @@ def search_c04(ctx, broken):
     return None  # the generic component run that follows performs the search (Spec on real outputs)
 
 
+# ------------------------------------------------------------------ C07: race-detector run (thorough tier)
+def race_pipeline(ctx):
+    """thorough tier: the pipeline component once more, built with -race (supporting evidence only)"""
+    if ctx.tier != "thorough":
+        return
+    import check
+    exe = os.path.join(check.HARN, "bin", "sxdiff-race")
+    rc, out, _ = check.sh(["go", "build", "-race", "-tags", "verif", "-o", exe, "./cmd/sxdiff"], cwd=check.HARN, env=check.GOENV)
+    if rc != 0:
+        ctx.notes.append("race build not available: " + out[-300:])
+        return
+    rc, out, dt = check.sh([exe, "pipeline", "-seed", str(ctx.seed), "-tier", "quick", "-cases", os.path.join(ctx.work, "race.cases"),
+                            "-stats", os.path.join(ctx.work, "race.stats.json")], cwd=ctx.work,
+                           env=dict(check.GOENV, GORACE="halt_on_error=0"), timeout=1200)
+    ctx.notes.append("race-detector run of sxdiff pipeline: rc=%d, %.1fs, DATA RACE reports: %d" % (rc, dt, out.count("DATA RACE")))
+    if "DATA RACE" in out or rc != 0:
+        ctx.violation("correspondence", "race detector reports a data race (or the race build crashed) in the packet pipeline run",
+                      {"component": "pipeline-race", "output": out[-3000:]}, False)
+
+
 NOT_CLAIMED = {}
 
 PROPS = {
@@ -93,6 +113,7 @@ PROPS = {
     "C07": {
         "modules": ["SxVerif.Props.C07"],
         "components": ["pipeline"],
+        "extra": [race_pipeline],
         "trusted_base": [
             "modelled, not verified: Go channel / select / sync.WaitGroup / sync.Pool semantics at the granularity of one channel operation or one call per step (Model/Pipe.lean); gopacket SerializeBuffer.Clear never fails; the request channel is modelled unbounded (superset of every capacity incl. rendezvous)",
             "stage descriptors regenerated from generator.go / engine.go / sender.go / memory.go by sxfacts (Generated/StagesPacket.lean): per goroutine the ordered channel operations with their ctx-guards, calls, closes, WaitGroup shape, capacities, wiring facts; the model's configuration (guards, capacities, order of WritePacketData/FreeSerializeBuffer, close order, closers wait) is READ from them and the side conditions are decided on them",
